@@ -11,7 +11,8 @@ subset raises Unsupported with the source location: the tie is then *broken*, ne
 
 usage: py2lean.py [REPO] [OUTDIR]     exit 0 ok, exit 3 unsupported/failed (message on stderr)
 """
-import ast, sys, os, importlib, hashlib, json
+import ast
+import re as _re, sys, os, importlib, hashlib, json
 
 REPO = sys.argv[1] if len(sys.argv) > 1 else '/repo'
 OUT = sys.argv[2] if len(sys.argv) > 2 else os.path.join(os.path.dirname(os.path.abspath(__file__)), '..', 'lean', 'BU', 'Gen')
@@ -194,6 +195,18 @@ SIG = {
     'address_to_string': ('keys.py', 'Address.to_string',
                           [('hashlib_sha256', 'Bytes → Bytes'), ('b58encode', 'Bytes → String'), ('self_type', 'String'),
                            ('p2pkh_prefix', 'Bytes'), ('p2sh_prefix', 'Bytes'), ('self_hash160', 'Bytes')], 'String'),
+    # public-key renderings: the VerifyingKey (third party) is the 64 bytes x || y its to_string() returns; hex strings are the bytes
+    # they denote
+    'pubkey_to_hex': ('keys.py', 'PublicKey.to_hex', [('self_key_string', 'Bytes'), ('compressed', 'Bool')], 'Bytes'),
+    'pubkey_to_x_only_hex': ('keys.py', 'PublicKey.to_x_only_hex', [('self_key_string', 'Bytes')], 'Bytes'),
+    'pubkey_is_y_even': ('keys.py', 'PublicKey.is_y_even', [('self_key_string', 'Bytes')], 'Bool'),
+    'pubkey_to_hash160': ('keys.py', 'PublicKey._to_hash160',
+                          [('hashlib_sha256', 'Bytes → Bytes'), ('self_key_string', 'Bytes'), ('compressed', 'Bool')], 'Bytes'),
+    # PublicKey(hex_str) — the constructor called with a string and neither message nor signature: sympy's sqrt_mod(a, p, True) and
+    # python-ecdsa's VerifyingKey.from_string are parameters; the result is what `self.key` is set to; hex_str is a real string
+    'pubkey_from_hex': ('keys.py', 'PublicKey.__init__',
+                        [('sqrt_mod', 'Int → Int → List Int'), ('verifyingkey_from_string', 'Bytes → Except PyErr (Nat × Nat)'),
+                         ('hex_str', 'List Char')], 'Nat × Nat'),
     # taproot signing: the key object is its 32 secret bytes, the public-key object its 64 bytes x || y
     'sign_taproot_input': ('keys.py', 'PrivateKey._sign_taproot_input',
                            [('hashlib_sha256', 'Bytes → Bytes'), ('OPS', 'List (String × Bytes)'), ('self_key_bytes', 'Bytes'),
@@ -207,6 +220,7 @@ SCH_CALLS = {'tagged_hash': ('schnorr_tagged_hash', True), 'bytes_from_int': ('s
              'has_even_y': ('schnorr_has_even_y', False)}
 SCH_BYTES = {'tagged_hash', 'bytes_from_int', 'bytes_from_point', 'xor_bytes'}
 POINT = 'Option (Int × Int)'
+PUBFUNS = {'pubkey_to_hex', 'pubkey_to_x_only_hex', 'pubkey_is_y_even', 'pubkey_to_hash160'}
 # record types: field order of the call `<obj>.to_bytes()` on a loop variable
 REC_TYPE = {'txinput_to_bytes': 'Py.PyTxIn', 'txoutput_to_bytes': 'Py.PyTxOut', 'txwitness_to_bytes': 'Py.PyWit'}
 TOK_FIELDS = {'script_pubkey', 'script_sig'}
@@ -219,7 +233,8 @@ SELF_CALLS = {'get_size': 'transaction_get_size', '_get_hash': 'transaction_get_
 STRFUNS = {'bech32_encode': {'combined': 'List Int'},
            'bech32_decode': {'pos': 'Int', 'hrp': 'List Char', 'data': 'List Int', 'spec': 'Option Int'},
            'segwit_decode': {'hrpgot': 'Option (List Char)', 'data': 'Option (List Int)', 'spec': 'Option Int', 'decoded': 'Option (List Int)'},
-           'segwit_encode': {'spec': 'Int', 'ret': 'List Char'}}
+           'segwit_encode': {'spec': 'Int', 'ret': 'List Char'},
+           'pubkey_from_hex': {'first_byte_in_hex': 'List Char', 'y_values': 'List Int'}}
 STR_DEFAULT = {'Int': '(0 : Int)', 'List Char': '([] : List Char)', 'List Int': '([] : List Int)'}
 # callees by Python name inside bech32.py: (generated name, returns an Option?)
 STR_CALLS = {'bech32_create_checksum': ('bech32_create_checksum', False), 'bech32_verify_checksum': ('bech32_verify_checksum', True),
@@ -232,7 +247,9 @@ TREEFUNS = {'tag_hashed_merkle_root': ('get_tag_hashed_merkle_root', '(Py.treeDe
 # a nested function's `nonlocal` counter, threaded: parameter in, extra result component out
 NONLOCAL_STATE = {'traverse_level': 'traversed'}
 # utils.py's tweak functions: which locals are curve points; hex strings (of an even number of digits) are modelled as the bytes they denote
-TWEAKFUNS = {'negate_privkey': set(), 'tweak_taproot_pubkey': {'P', 'Q'}, 'tweak_taproot_privkey': set(), 'blockheader_target': set()}
+TWEAKFUNS = {'negate_privkey': set(), 'tweak_taproot_pubkey': {'P', 'Q'}, 'tweak_taproot_privkey': set(), 'blockheader_target': set(),
+             'pubkey_to_hex': set(), 'pubkey_to_x_only_hex': set(), 'pubkey_is_y_even': set(), 'pubkey_to_hash160': set(),
+             'pubkey_from_hex': set()}
 TWEAK_CALLS = {'point_add': 'schnorr_point_add', 'point_mul': 'schnorr_point_mul', 'full_pubkey_gen': 'schnorr_full_pubkey_gen',
                'negate_privkey': 'negate_privkey'}
 # parsers: `x.hex()` of bytes is the same data (hex strings are modelled as the bytes they denote), struct.unpack_from
@@ -432,7 +449,10 @@ class Tr:
         if isinstance(n, ast.BinOp) and isinstance(n.op, ast.Add): return s.str_type(n.left) or s.str_type(n.right)
         if isinstance(n, ast.List): return 'ints'
         if isinstance(n, ast.ListComp): return 'ints'
-        if isinstance(n, ast.Call) and isinstance(n.func, ast.Attribute) and n.func.attr in ('lower', 'upper', 'join'): return 'chars'
+        if isinstance(n, ast.Call) and isinstance(n.func, ast.Attribute) and n.func.attr in ('lower', 'upper', 'join', 'strip'): return 'chars'
+        if isinstance(n, ast.IfExp):
+            a_, b_ = s.str_type(n.body), s.str_type(n.orelse)
+            return a_ if a_ == b_ else None
         if isinstance(n, ast.Call) and isinstance(n.func, ast.Name) and n.func.id in STR_CALLS:
             return {'bech32_create_checksum': 'ints', 'convertbits': 'ints', 'bech32_encode': 'chars'}.get(n.func.id)
         return None
@@ -481,10 +501,25 @@ class Tr:
                 return s.eff(f'Py.unwrap {t}') if opt else t
             if f == 'len' and len(a) == 1 and s.str_type(a[0]) in ('chars', 'ints', 'opt'):
                 return f'((List.length {s.e(a[0])} : Nat) : Int)'
+            if f == 'h_to_b' and len(a) == 1 and not n.keywords and s.str_type(a[0]) == 'chars':
+                return s.eff(f'Py.bytesFromhex {s.e(a[0])}')            # bytes.fromhex of a real string
+            if (f == 'int' and len(a) == 2 and not n.keywords and isinstance(a[1], ast.Constant) and a[1].value == 16
+                    and not isinstance(a[1].value, bool) and s.str_type(a[0]) == 'chars'):
+                return s.eff(f'Py.intBase16 {s.e(a[0])}')
+            if (f == 'sqrt_mod' and 'sqrt_mod' in s.params and len(a) == 3 and not n.keywords and isinstance(a[2], ast.Constant)
+                    and a[2].value is True):
+                return f'(sqrt_mod {s.e(a[0])} {s.e(a[1])})'           # all_roots=True: the sorted list of all roots
         if isinstance(n, ast.Call) and isinstance(n.func, ast.Attribute):
             f = n.func
-            if f.attr in ('lower', 'upper') and not n.args and s.str_type(f.value) == 'chars':
+            if f.attr in ('lower', 'upper', 'strip') and not n.args and not n.keywords and s.str_type(f.value) == 'chars':
                 return s.eff(f'Py.str{f.attr.capitalize()} {s.e(f.value)}')
+            if (f.attr == 'startswith' and len(n.args) == 1 and not n.keywords and isinstance(n.args[0], ast.Constant)
+                    and isinstance(n.args[0].value, str) and s.str_type(f.value) == 'chars'):
+                return f'(Py.strStartswith {s.e(f.value)} {s.e_str(n.args[0])})'
+            if (f.attr == 'from_string' and isinstance(f.value, ast.Name) and f.value.id == 'VerifyingKey' and 'verifyingkey_from_string' in s.params
+                    and len(n.args) == 1 and len(n.keywords) == 1 and n.keywords[0].arg == 'curve'
+                    and isinstance(n.keywords[0].value, ast.Name) and n.keywords[0].value.id == 'SECP256k1'):
+                return s.eff(f'verifyingkey_from_string {s.e(n.args[0])}')
             if (f.attr == 'rfind' and len(n.args) == 1 and isinstance(n.args[0], ast.Constant) and isinstance(n.args[0].value, str)
                     and len(n.args[0].value) == 1 and s.str_type(f.value) == 'chars'):
                 return f'(Py.strRfind {s.e(f.value)} {lean_char(n.args[0].value)})'
@@ -515,6 +550,8 @@ class Tr:
         if isinstance(n, ast.Compare) and len(n.ops) == 1:
             l, r, op = n.left, n.comparators[0], n.ops[0]
             if isinstance(op, (ast.Is, ast.IsNot)) and isinstance(r, ast.Constant) and r.value is None:
+                if isinstance(l, ast.Name) and (l.id in s.intlists or l.id in s.charlists) and l.id not in s.optvars:
+                    return 'false' if isinstance(op, ast.Is) else 'true'        # a list is not None
                 o = s.e_raw_opt(l)
                 if o is None: s.fail(n, 'is None on a value that cannot be None')
                 return f'(Option.isNone {o})' if isinstance(op, ast.Is) else f'(Option.isSome {o})'
@@ -556,10 +593,35 @@ class Tr:
             return f'(Py.slice {s.hexbytes(n.value)} ({n.slice.lower.value // 2} : Int) Py.slEnd)'
         if isinstance(n, ast.Call) and isinstance(n.func, ast.Name) and n.func.id == 'negate_privkey' and len(n.args) == 1:
             return s.eff(f'negate_privkey {s.e(n.args[0])}')
+        if (isinstance(n, ast.Call) and isinstance(n.func, ast.Name) and n.func.id == 'b_to_h' and len(n.args) == 1 and not n.keywords
+                and s.isbytes(n.args[0])):
+            return s.e(n.args[0])           # b_to_h(<bytes>): the hex string that denotes them
+        if (isinstance(n, ast.Subscript) and isinstance(n.slice, ast.Slice) and n.slice.step is None and s.hexbytes(n.value) is not None):
+            lo, up = n.slice.lower, n.slice.upper
+            def even(x):
+                if isinstance(x, ast.UnaryOp) and isinstance(x.op, ast.USub) and isinstance(x.operand, ast.Constant): v = -x.operand.value
+                elif isinstance(x, ast.Constant): v = x.value
+                else: return None
+                return v // 2 if isinstance(v, int) and not isinstance(v, bool) and v % 2 == 0 else None
+            # [-2k:] and [:2k] / [2j:2k] of a hex string of an even number of digits: the same slice of the bytes, halved
+            if lo is not None and up is None and even(lo) is not None:
+                return f'(Py.sliceFromL {s.hexbytes(n.value)} ({even(lo)} : Int))'        # negative bounds count from the end
+            if up is not None and even(up) is not None and (lo is None or even(lo) is not None):
+                return f'(Py.sliceL {s.hexbytes(n.value)} ({0 if lo is None else even(lo)} : Int) ({even(up)} : Int))'
+        if (isinstance(n, ast.BinOp) and isinstance(n.op, ast.Add) and isinstance(n.left, ast.Constant) and isinstance(n.left.value, str)
+                and _re.fullmatch(r'([0-9a-f]{2})+', n.left.value) and s.hexbytes(n.right) is not None):
+            return f'({blit(bytes.fromhex(n.left.value))} ++ {s.hexbytes(n.right)})'      # "02" + <hex>: hex digits in front
+        if (s.name in PUBFUNS and isinstance(n, ast.Call) and isinstance(n.func, ast.Attribute) and n.func.attr == 'to_hex'
+                and isinstance(n.func.value, ast.Name) and n.func.value.id == 'self' and len(n.args) == 1 and not n.keywords):
+            return s.eff(f'pubkey_to_hex self_key_string {s.e(n.args[0])}')
         return None
 
     def e_tweak(s, n):
-        if isinstance(n, ast.Attribute) and isinstance(n.value, ast.Name) and n.value.id == 'Secp256k1Params' and n.attr in ('_order', '_field'):
+        if (s.name in PUBFUNS and isinstance(n, ast.Call) and isinstance(n.func, ast.Attribute) and n.func.attr == 'to_string'
+                and not n.args and not n.keywords and isinstance(n.func.value, ast.Attribute) and n.func.value.attr == 'key'
+                and isinstance(n.func.value.value, ast.Name) and n.func.value.value.id == 'self'):
+            return 'self_key_string'        # self.key.to_string(): the 64 bytes x || y
+        if isinstance(n, ast.Attribute) and isinstance(n.value, ast.Name) and n.value.id == 'Secp256k1Params' and n.attr in ('_order', '_field', '_p'):
             return CONSTS['Secp256k1Params.' + n.attr]
         if isinstance(n, ast.Name) and n.id == 'G' and n.id not in s.declared: return FILE_CONSTS['schnorr.py']['G']
         if isinstance(n, ast.Call) and isinstance(n.func, ast.Name):
@@ -791,6 +853,9 @@ class Tr:
         if (isinstance(n, ast.BinOp) and isinstance(n.op, ast.Mult) and isinstance(n.left, ast.Constant) and isinstance(n.left.value, int)
                 and n.left.value % 2 == 0 and isinstance(n.right, ast.Constant) and n.right.value == '0'):
             return f'(Py.bytesRepeat [0x00] ({n.left.value // 2} : Int))'       # an even number of "0" hex digits
+        if (isinstance(n, ast.BinOp) and isinstance(n.op, ast.Pow) and isinstance(n.right, ast.Constant) and isinstance(n.right.value, int)
+                and not isinstance(n.right.value, bool) and 0 <= n.right.value <= 16 and not s.isbytes(n.left)):
+            return f'({s.e(n.left)} ^ ({n.right.value} : Nat))'          # int ** small literal
         if isinstance(n, ast.BinOp):
             a, b = s.e(n.left), s.e(n.right)
             op = {ast.Add: '+', ast.Sub: '-', ast.Mult: '*', ast.FloorDiv: '/', ast.Mod: '%'}.get(type(n.op))
@@ -1073,6 +1138,7 @@ class Tr:
             nm = f.attr if isinstance(f, ast.Attribute) else getattr(f, 'id', '')
             if nm == 'hex' and s.name in PARSERS and isinstance(f, ast.Attribute): return s.isbytes(f.value)
             if nm == 'full_pubkey_gen' and s.name in TWEAKFUNS: return True
+            if s.name in PUBFUNS and nm in ('to_string', 'to_hex'): return True
             if s.name == 'sign_input' and nm in ('sign_digest_deterministic', 'sigencode_der'): return True
             if s.name in ('from_wif', 'to_wif', 'is_address_valid', 'address_to_hash160') and nm in ('b58decode',): return True
             if s.name == 'to_wif' and nm == 'to_bytes' and isinstance(f, ast.Attribute) and getattr(f.value, 'id', '') == 'self': return True
@@ -1093,7 +1159,7 @@ class Tr:
         if isinstance(n, ast.Constant) and isinstance(n.value, bool): return t
         if s.name in STRFUNS and isinstance(n, ast.Call) and isinstance(n.func, ast.Name) and n.func.id in ('any', 'all'): return t
         if isinstance(n, ast.Call) and isinstance(n.func, ast.Name) and n.func.id in ('isinstance', 'is_infinite', 'has_even_y', 'schnorr_verify'): return t
-        if t.startswith('(Py.tokInTable') or t.startswith('(Py.inTableB') or t.startswith('(Py.bytesLt') or t.startswith('(List.any (String.toList'): return t
+        if t.startswith('(Py.tokInTable') or t.startswith('(Py.inTableB') or t.startswith('(Py.bytesLt') or t.startswith('(Py.strStartswith') or t.startswith('(List.any (String.toList'): return t
         if isinstance(n, ast.Name) and n.id in s.boolvars: return t
         if isinstance(n, ast.Attribute) and 'self_' + n.attr in s.boolvars: return t
         if s.isbytes(n): return f'(!({t}).isEmpty)'
@@ -1575,6 +1641,43 @@ class Tr:
             return out
         s.fail(st, 'statement')
 
+    def ctor_hex_branch(s, node):
+        """PublicKey.__init__ called as PublicKey(hex_str) with a str — message and signature keep their default None.  The body must be
+        `if hex_str: … elif message or signature: … else: raise TypeError`; with both None the middle test is false, so the translation
+        keeps the first branch and the final raise.  `self.key = E` as the last thing a path does becomes `return E`; a path that
+        ends without setting it falls through (Python returns an object without a key)."""
+        body = [st for st in node.body if not (isinstance(st, ast.Expr) and isinstance(st.value, ast.Constant))]
+        defaults = {a.arg: d for a, d in zip(node.args.args[-len(node.args.defaults):], node.args.defaults)} if node.args.defaults else {}
+        for k in ('message', 'signature'):
+            if not (k in defaults and isinstance(defaults[k], ast.Constant) and defaults[k].value is None):
+                s.fail(node, f'constructor parameter {k} no longer defaults to None')
+        if not (len(body) == 1 and isinstance(body[0], ast.If) and isinstance(body[0].test, ast.Name) and body[0].test.id == 'hex_str'):
+            s.fail(node, 'constructor shape: if hex_str')
+        top = body[0]
+        if not (len(top.orelse) == 1 and isinstance(top.orelse[0], ast.If)): s.fail(node, 'constructor shape: elif')
+        mid = top.orelse[0]
+        if not (isinstance(mid.test, ast.BoolOp) and isinstance(mid.test.op, ast.Or) and len(mid.test.values) == 2
+                and all(isinstance(v, ast.Name) for v in mid.test.values) and {v.id for v in mid.test.values} == {'message', 'signature'}):
+            s.fail(node, 'constructor shape: elif message or signature')
+        if not (len(mid.orelse) == 1 and isinstance(mid.orelse[0], ast.Raise)): s.fail(node, 'constructor shape: else raise')
+        for x in ast.walk(ast.Module(body=top.body, type_ignores=[])):
+            if isinstance(x, ast.Name) and x.id in ('message', 'signature'): s.fail(x, 'the hex branch reads message / signature')
+        def is_key_store(st):
+            return (isinstance(st, ast.Assign) and len(st.targets) == 1 and isinstance(st.targets[0], ast.Attribute)
+                    and isinstance(st.targets[0].value, ast.Name) and st.targets[0].value.id == 'self' and st.targets[0].attr == 'key')
+        def tail(block):
+            if not block: return
+            last = block[-1]
+            if is_key_store(last): block[-1] = ast.copy_location(ast.Return(value=last.value), last)
+            elif isinstance(last, ast.If): tail(last.body); tail(last.orelse)
+        tail(top.body)
+        top.orelse = [mid.orelse[0]]
+        for x in ast.walk(top):
+            if isinstance(x, ast.Attribute) and isinstance(x.value, ast.Name) and x.value.id == 'self':
+                s.fail(x, 'self.* used other than as the final `self.key = …` of a path')
+        node.body = [top]
+        return node
+
     def exc(s, n):
         nm = n.func.id if isinstance(n, ast.Call) else getattr(n, 'id', 'other')
         return {'ValueError': 'valueError', 'Exception': 'other', 'TypeError': 'typeError',
@@ -1607,7 +1710,10 @@ class Tr:
                     s.declared.add(nm); s.recvars[nm] = s.reclists[rl]; s.hoisted.add(nm)
                     continue
                 if (nm not in top and nm not in s.declared and s.name in TWEAKFUNS
-                        and (s.hexfmt(st.value) is not None or (isinstance(st.value, ast.Call) and (
+                        and (s.hexfmt(st.value) is not None or (s.name in PUBFUNS and isinstance(st.value, ast.BinOp)
+                                                                and isinstance(st.value.left, ast.Constant) and isinstance(st.value.left.value, str))
+                             or (isinstance(st.value, ast.Call) and getattr(st.value.func, 'id', '') == 'b_to_h' and s.name in PUBFUNS)
+                             or (isinstance(st.value, ast.Call) and (
                             (isinstance(st.value.func, ast.Attribute) and st.value.func.attr == 'hex')
                             or getattr(st.value.func, 'id', '') == 'negate_privkey')))):
                     out.append(f'  let mut {nm} := ([] : Bytes)')
@@ -1737,6 +1843,8 @@ class Tr:
                 def visit_Name(self, n):
                     return ast.copy_location(ast.Name(id='self', ctx=n.ctx), n) if n.id in copies else n
             node = RC().visit(node)
+        if s.name == 'pubkey_from_hex':
+            node = s.ctor_hex_branch(node)
         strpre = []
         if s.name in STRFUNS:
             for nm, T_ in STRFUNS[s.name].items():
@@ -1922,6 +2030,7 @@ def main():
             raise Unsupported('utils.py no longer takes G / point_add / point_mul / full_pubkey_gen from schnorr.py')
         CONSTS['Secp256k1Params._order'] = f'({ut.Secp256k1Params._order} : Int)'
         CONSTS['Secp256k1Params._field'] = f'({ut.Secp256k1Params._field} : Int)'
+        CONSTS['Secp256k1Params._p'] = f'({ut.Secp256k1Params._p} : Int)'
         for k in ('P2PKH_ADDRESS', 'P2SH_ADDRESS'): CONST_STRS[k] = getattr(consts, k)
         CONSTS['HEADER_SIZE'] = f'({consts.HEADER_SIZE} : Int)'
         CONSTS['NEGATIVE_SATOSHI'] = f'({consts.NEGATIVE_SATOSHI} : Int)'
